@@ -170,3 +170,99 @@ func oracleC14(res *Result, c *Case) {
 		}
 	}
 }
+
+// ---------------------------------------------------------------------
+// Types with their own As / Is methods (the stdlib protocol): a method that declines must not
+// stop the search, one that answers must be honoured.  Purely differential (library vs the
+// standard library on the same real objects); the model does not know these types.
+
+type pickyCode struct{ n int }
+
+func (c *pickyCode) Error() string { return fmt.Sprintf("code %d", c.n) }
+
+// UPicky answers As only for **pickyCode and Is only for errPickyMatch; it declines the rest.
+type UPicky struct {
+	cause error
+	calls *int
+}
+
+var errPickyMatch = goErr.New("picky match")
+
+func (e *UPicky) Error() string { return "picky: " + e.cause.Error() }
+func (e *UPicky) Unwrap() error { return e.cause }
+func (e *UPicky) As(target interface{}) bool {
+	if e.calls != nil {
+		*e.calls++
+	}
+	if t, ok := target.(**pickyCode); ok {
+		*t = &pickyCode{7}
+		return true
+	}
+	return false
+}
+func (e *UPicky) Is(target error) bool { return target == errPickyMatch }
+
+func pickyVariants(e error) []namedErr {
+	other := goErr.New("other branch")
+	return []namedErr{
+		{"picky(e)", &UPicky{cause: e}},
+		{"Wrap(picky(e))", errors.Wrap(&UPicky{cause: e}, "w")},
+		{"WithStack(picky(WithMessage(e)))", errors.WithStack(&UPicky{cause: errors.WithMessage(e, "m")})},
+		{"Errorf(%w picky(e))", fmt.Errorf("x: %w", &UPicky{cause: e})},
+		{"Join(picky(other), e)", errors.Join(&UPicky{cause: other}, e)},
+		{"picky(Join(other, e))", &UPicky{cause: errors.Join(other, e)}},
+		{"Join(other, Wrap(picky(e)))", errors.Join(other, errors.Wrap(&UPicky{cause: e}, "w"))},
+	}
+}
+
+type namedErr struct {
+	name string
+	e    error
+}
+
+func oracleC14Methods(res *Result, c *Case) {
+	e := c.Err
+	if e == nil {
+		return
+	}
+	targets := asTargetsGo()
+	targets = append(targets, asTarget{"pickyCode",
+		func(e error) (bool, error) { var t *pickyCode; ok := errors.As(e, &t); return ok, errOrNil(ok, t) },
+		func(e error) (bool, error) { var t *pickyCode; ok := goErr.As(e, &t); return ok, errOrNil(ok, t) }})
+	refs := append([]error{errPickyMatch, e, errors.UnwrapAll(e)}, c.Refs...)
+	for _, v := range pickyVariants(e) {
+		stdVisible := true
+		for _, n := range nodesOfErr(v.e, nil) {
+			if errbase.UnwrapOnce(n) != nil {
+				if _, ok := n.(interface{ Unwrap() error }); !ok {
+					stdVisible = false
+				}
+			}
+		}
+		for _, t := range targets {
+			var lok, sok bool
+			var lv, sv error
+			if ok, _ := catch(func() { lok, lv = t.lib(v.e); sok, sv = t.std(v.e) }); !ok {
+				res.fail(c, "C14.as_method", v.name+": As panicked", "C14:as-method:panic")
+				continue
+			}
+			res.OracleEvals["C14.as_method"]++
+			if stdVisible {
+				if lok != sok || (lok && !(safeEq(lv, sv) || (t.name == "pickyCode" && lv != nil && sv != nil && lv.Error() == sv.Error()))) {
+					res.fail(c, "C14.as_method", fmt.Sprintf("%s, target %s: As found (%v,%T) std found (%v,%T)", v.name, t.name, lok, lv, sok, sv), "C14:as-method:"+t.name)
+				}
+			} else if sok && !lok {
+				res.fail(c, "C14.as_method", fmt.Sprintf("%s, target %s: std As finds a match, As does not", v.name, t.name), "C14:as-method-missed:"+t.name)
+			}
+		}
+		for i, r := range refs {
+			if r == nil {
+				continue
+			}
+			res.OracleEvals["C14.is_method"]++
+			if goErr.Is(v.e, r) && isRes(v.e, r) != "true" {
+				res.fail(c, "C14.is_method", fmt.Sprintf("%s: std errors.Is(e, ref %d) holds but Is does not", v.name, i), "C14:is-method")
+			}
+		}
+	}
+}
